@@ -217,8 +217,17 @@ func VerifC08Len() {
 	}
 	cfg := verifConfigs()[1]
 	src := verifNewIndex(1, cfg)
-	src.Insert(verifId(0), verifVector("vec", 1, 3), Metadata{key: val}, 0)
+	ierr := src.Insert(verifId(0), verifVector("vec", 1, 3), Metadata{key: val}, 0)
 	var buf bytes.Buffer
+	if ierr != nil {
+		// metadata the stream layout cannot represent may be refused at insertion;
+		// then nothing of the item may be stored
+		verifrt.Reach("insert-refused")
+		verifrt.Assert(len(key) > 255 || len(val) > 65535, "representable-metadata-is-accepted")
+		_, gerr := src.GetVertex(verifId(0))
+		verifrt.Assert(gerr != nil && src.Len() == 0 && src.BytesSize() == 0, "refused-insert-stores-nothing")
+		return
+	}
 	err := src.Save(&buf, false)
 	if err != nil {
 		verifrt.Reach("save-refused")
